@@ -55,6 +55,9 @@ func init() {
 					_ = wr.Entropy()
 				}
 			}
+			// a constructed separator whose every attempt fails on this stream (no digit ever comes up)
+			install([]chunk{{bs: make([]byte, 1<<16)}})
+			_, _ = spg.NewSFFunction(spg.CharRecipe{Length: 2, Allow: spg.Letters, Require: spg.Digits})()
 			tape, rand.Reader = saved, savedReader
 			drain(capOut)
 			drain(capErr)
@@ -68,6 +71,14 @@ func init() {
 			parts = append(parts, fmt.Sprintf("allminus%d=%s", uint32(f), hxs(one.Alphabet())))
 		}
 		parts = append(parts, fmt.Sprintf("newcharalphabet=%s", hxs(spg.NewCharRecipe(11).Alphabet())))
+		for _, f := range []spg.CTFlag{spg.Uppers, spg.Lowers, spg.Digits, spg.Symbols, spg.Ambiguous} {
+			one := spg.CharRecipe{Length: 1, Require: f}
+			parts = append(parts, fmt.Sprintf("require%d=%s", uint32(f), hxs(one.Alphabet())))
+		}
+		for _, n := range []int{0, -3} {
+			z := spg.NewCharRecipe(n)
+			parts = append(parts, fmt.Sprintf("newchar_len%d=%d,%d,%d,%d,%s", n, z.Length, uint32(z.Allow), uint32(z.Require), uint32(z.Exclude), hxs(z.Alphabet())))
+		}
 		parts = append(parts, fmt.Sprintf("flags=%d,%d,%d,%d,%d,%d,%d,%d", uint32(spg.Uppers), uint32(spg.Lowers), uint32(spg.Digits), uint32(spg.Symbols),
 			uint32(spg.Ambiguous), uint32(spg.Letters), uint32(spg.All), uint32(spg.None)))
 		cr := spg.NewCharRecipe(17)
